@@ -7,7 +7,7 @@
      is_straight_ranks rs : the five ranks are distinct and consecutive, the ace may play low;
      is_wheel_ranks rs    : the ranks are exactly A-5-4-3-2. *)
 From CKC Require Import Base.Prelude Spec.Layout Spec.Poker.
-From CKC Require Import Model.Five Proofs.FiveFacts Proofs.C01 Proofs.C13.
+From CKC Require Import Model.Five Proofs.FiveFacts Proofs.HandFacts Proofs.C13.
 Open Scope N_scope.
 
 Theorem C13_predicates : forall ws,
